@@ -9,7 +9,6 @@ import (
 	"strings"
 
 	"github.com/AdguardTeam/urlfilter"
-	"github.com/AdguardTeam/urlfilter/filterlist"
 	"github.com/AdguardTeam/urlfilter/rules"
 )
 
@@ -113,6 +112,29 @@ func cmdReplayCosOpt(args []string) error {
 			// (a generic rule, a rule for the host, and - for a second host, under a real public suffix - a rule for the
 			// host and one for the name under any public suffix: "specific" selectors, which only the css option governs)
 			list := "##.generic\nh.test##.specific\nh.com##.specific\nh.*##.wild\n" + text + "\n"
+			if c.Kind == "exception" && len(mods) >= 2 {
+				// a second exception with ONE of the modifiers, in front of or behind the full one: the one with more
+				// modifiers outranks it and decides, wherever it stands
+				for _, one := range mods {
+					if one != "document" && one != "important" && !strings.HasPrefix(one, "~") && !isContentTypeName(one) {
+						if order == 0 {
+							list = "@@||h.test^$" + one + "\n" + list
+						} else {
+							list += "@@||h.test^$" + one + "\n"
+						}
+						if weaker, err := rules.NewNetworkRule("@@||h.test^$"+one, 1); err == nil && len(rs) == 1 {
+							want = expDirect
+							if order == 0 {
+								check("GetCosmeticOption(a weaker exception first)", optionSet(rules.NewMatchingResult([]*rules.NetworkRule{weaker, rs[0]}, nil).GetCosmeticOption()), "")
+							} else {
+								check("GetCosmeticOption(a weaker exception last)", optionSet(rules.NewMatchingResult([]*rules.NetworkRule{rs[0], weaker}, nil).GetCosmeticOption()), "")
+							}
+							want = exp
+						}
+						break
+					}
+				}
+			}
 			if c.Kind == "exception" && len(mods) >= 2 && order == 1 {
 				// a $badfilter rule naming only ONE of the exception's modifiers is not its twin: it disables nothing
 				// ("document" stands for five modifiers and may well be the twin of "document,content": not used)
@@ -123,7 +145,10 @@ func cmdReplayCosOpt(args []string) error {
 					}
 				}
 			}
-			st, err := filterlist.NewRuleStorage([]filterlist.RuleList{&filterlist.StringRuleList{ID: 1, RulesText: list}})
+			// (a rule for another content type in front, so that something is read from the list before the exception -
+			// the last line - is; the list is laid out in memory or in a file, with or without a final line break)
+			list = "||h.test^$image,domain=some-longer-name-to-fill-the-read-buffer.example|another.example\n" + list
+			st, err := layoutStorage([]string{list}, []int{[]int{1, 0, -7}[evals%3]})
 			if err != nil {
 				return err
 			}
@@ -188,6 +213,14 @@ func cmdReplayCosOpt(args []string) error {
 	}
 	summary(map[string]any{"cases": len(recs), "evaluations": evals, "mismatches": mism, "nontrivial": nontrivial, "samples": samples})
 	return nil
+}
+
+func isContentTypeName(m string) bool {
+	switch strings.TrimPrefix(m, "~") {
+	case "script", "subdocument", "image", "stylesheet", "object", "media", "font", "xmlhttprequest", "websocket", "ping", "other":
+		return true
+	}
+	return false
 }
 
 func init() {
